@@ -37,19 +37,19 @@ def _cookie_stubs():
             for name, m in sc.items():
                 morsels[name] = new_obj(run, None, "morsel", value=C(m.value), key=C(name),
                                         attrs=new_dict(run, {kk: C(vv) for kk, vv in m.items()}, False))
-        return new_obj(run, None, f"cookie{k}", morsels=new_dict(run, morsels, False))
+        return new_obj(run, None, f"cookie{k}", **{"@mapping": new_dict(run, morsels, False)})
 
     def values(I, run, args, kwargs, node):
-        d = run.cell(run.cell(args[0]).fields["morsels"])
+        d = run.cell(run.cell(args[0]).fields["@mapping"])
         return Tup(tuple(d.items.values()))
 
     def items(I, run, args, kwargs, node):
-        d = run.cell(run.cell(args[0]).fields["morsels"])
+        d = run.cell(run.cell(args[0]).fields["@mapping"])
         return Tup(tuple(Tup((C(k), v)) for k, v in d.items.items()))
 
     def update(I, run, args, kwargs, node):
-        d = run.cell(run.cell(args[0]).fields["morsels"])
-        o = run.cell(run.cell(args[1]).fields["morsels"])
+        d = run.cell(run.cell(args[0]).fields["@mapping"])
+        o = run.cell(run.cell(args[1]).fields["@mapping"])
         run.effect("cookie.update", args, node=node)
         d.items.update(o.items)
         return NONE
@@ -128,8 +128,12 @@ def r1(ctx):
             ctx.paths += len(outs)
             n += 1
             want = ref.get(host)
-            got = outs[0].value.v if len(outs) == 1 and outs[0].kind == "return" and isinstance(outs[0].value, C) else \
-                f"<{[(o.kind, o.exc_class or o.value) for o in outs][:2]}>"
+            if not (len(outs) == 1 and outs[0].kind in ("return", "raise") and (outs[0].kind == "raise" or isinstance(outs[0].value, C))):
+                # the history did not fold to one constant result: the model of SimpleCookie / a construct is not precise
+                # enough here -- that is an analysis limitation, never a violation
+                raise AnalysisError(f"history {list(h)} -> {host!r} does not fold to a single constant result: "
+                                    f"{[(o.kind, o.exc_class or repr(o.value)[:60], o.note) for o in outs][:2]}")
+            got = outs[0].value.v if outs[0].kind == "return" else f"<raises {outs[0].exc_class}>"
             ok = got == want
             cls = ("case" if any(x.lower() != x for s in h for x in [s.split("Domain=")[-1]] if "Domain=" in s) else "plain") + f":{len(h)}"
             ctx.ob(f"{JAR}:history:{' | '.join(h)} -> {host or '<empty>'}", ok, f"Cookie: {got!r}" if ok else
